@@ -17,6 +17,7 @@ META = {
         "is attempted. A's trace must still match the reference interpreter, every callback must run on "
         "A's own objects, and the other instance must match the reference too. "
         "further interference: per-instance hooks, an unrelated class whose state ids equal names A resolves on itself followed by a new instance of A's class, another instance of A's class over a bare model (accepted iff no referenced name is missing), two-machine probes with partial / decorator-wrapped callbacks. "
+        "More: state_field named like a guard of the class, one listeners list / one Enum shared by several machines / classes, async machines driven from several threads. "
         "distinct_nontrivial = "
         "distinct (interference class, position in the history, engine) observed."
     ),
